@@ -44,13 +44,23 @@ def rule_comment_layout(run, prog, rid="R-3.7"):
             cases["parse_multi_line_comment"].append("/*" + b + "*/")
             if "\n" not in b:
                 cases["parse_line_comment"].append("//" + b)
+    # the delimiters' own characters inside the text: a comment ends at the first `*/` that does not share its star with the
+    # opening `/*` (so `/*/ x */` is one comment, and `/* x/*/` ends at its last two characters)
+    for n in range(1, 4):
+        for body in itertools.product("/*a ", repeat=n):
+            b = "".join(body)
+            if "/" in b or "*" in b:
+                raw = "/*" + b + "*/"
+                cases["parse_multi_line_comment"].append(raw[:raw.index("*/", 2) + 2] if "*/" in raw[2:] else raw)
     for name, raws in cases.items():
         fn = prog.method("Lexer", name)
         run.require(fn is not None, f"anchor vanished: Lexer.{name}")
         bad, n = None, 0
         try:
             for prefix in range(0, 5):
-                for raw in raws:
+                for raw in sorted(set(raws)):
+                    if prefix > 1 and ("/" in raw[2:-2] or "*" in raw[2:-2]):
+                        continue                  # the delimiter cases do not depend on the column
                     n += 1
                     sim = LexerSim(prog, " " * prefix + raw + "\nz")
                     if prefix:
